@@ -474,6 +474,7 @@ class MetadorGroup(MetadorNode):
             self._guard_path(dest)
             dst_path = dest
         elif isinstance(dest, MetadorGroup):
+            self._guard_path(dst_name)  # could be a (user-provided) reserved name
             dst_path = dest.name.rstrip("/") + f"/{dst_name}"  # (dest could be "/")
         else:
             raise ValueError("Copy dest must be path or Group!")
